@@ -30,6 +30,21 @@ impl Check for C13 {
         vec!["programs_compiled_and_run", "reference_compared", "api_twin_compared", "alpha_twins_compared", "tag_match", "tag_matche", "tag_matcha", "tag_matchu"]
     }
     fn run_batch(&self, tier: Tier, seed: u64) -> Option<Merged> {
+        let (cases, lterms) = Self::build_cases(tier, seed);
+        Some(run_surface_batch("C13", cases, lterms, seed, true))
+    }
+    fn run_case(&self, gen: &str, seed: u64, index: u64, tier: Tier) -> CaseOut {
+        // replay of one surface case (violation files name them `surface:<k>`)
+        if gen != "surface" {
+            return CaseOut::default();
+        }
+        let (cases, _) = Self::build_cases(tier, seed);
+        replay_case("C13", cases, index as usize, seed, true)
+    }
+}
+
+impl C13 {
+    fn build_cases(tier: Tier, seed: u64) -> (Vec<SurfCase>, Vec<LtermCase>) {
         let n = if tier == Tier::Thorough { 4000 } else { 300 };
         let mut cases = vec![];
         for i in 0..n {
@@ -48,9 +63,6 @@ impl Check for C13 {
             cases.push(SurfCase { prog: prog.clone(), naming: Naming::Distinct, twin_of: None, infinite: false, tag });
             cases.push(SurfCase { prog, naming: Naming::Clash, twin_of: Some(k), infinite: false, tag });
         }
-        Some(run_surface_batch("C13", cases, vec![], seed, true))
-    }
-    fn run_case(&self, _gen: &str, _seed: u64, _index: u64, _tier: Tier) -> CaseOut {
-        CaseOut::default()
+                (cases, vec![])
     }
 }
